@@ -1,0 +1,11 @@
+//go:build !verif
+
+package dir
+
+import (
+	"github.com/mit-pdos/go-nfsd/fstxn"
+)
+
+// Verification hook (see /verif/DESIGN.md, Section 6): empty without the
+// build tag "verif".
+func verifName(kind string, op *fstxn.FsTxn, dinum uint64, name string) {}
